@@ -116,6 +116,8 @@ type crOp struct {
 	evIdx   int
 	pubSeq  uint64 // sequence number of the publish it caused at its origin (0 = none)
 	delAt   time.Duration
+	next    *crOp // compound update: the next operation done inside the same Modify function
+	repeat  bool  // an add / map set of an element this replica added before (second dot of one node)
 	// reference model (filled by the replay in Finish)
 	carries map[int]bool
 	covers  map[int]bool
@@ -216,6 +218,15 @@ type crState struct {
 	tomb    bool // C41 run
 	compact bool
 	dels    []*crOp
+	lastAdd map[[2]int]string // (replica, key) -> element that replica added last
+	lastEl  map[int]string    // key -> element added last by anybody
+	repeats []*crOp           // repeated adds issued so far
+	remHint map[int]crHint    // key -> element some replica just added a second time
+}
+
+type crHint struct {
+	elem string
+	rep  int
 }
 
 type crSync struct{}
@@ -329,6 +340,7 @@ func (st *crState) later(d time.Duration, fm *crFab, to int) {
 // hook runs on the replicator's goroutine right after the real Receive.
 func (st *crState) hook(h *actor.VerifReplicator, msg any, pf, pt uint64) {
 	var ev *crEv
+	var chain *crOp // further parts of a compound update: their events get the same completion
 	switch m := msg.(type) {
 	case *actor.PostStart:
 		st.nodeIDs[h.Idx] = h.VerifNodeID()
@@ -346,8 +358,11 @@ func (st *crState) hook(h *actor.VerifReplicator, msg any, pf, pt uint64) {
 			ev.op = op
 		}
 		if pt > pf {
-			op.pubSeq = pt
+			for p := op; p != nil; p = p.next {
+				p.pubSeq = pt
+			}
 		}
+		chain = op.next
 	case *crdt.Delete:
 		op := st.opByMsg[m]
 		if op == nil {
@@ -397,6 +412,10 @@ func (st *crState) hook(h *actor.VerifReplicator, msg any, pf, pt uint64) {
 		ev.tomb[i], _ = h.VerifTombstoned(k.id)
 	}
 	ev.patched = true
+	for p := chain; p != nil && p.applied; p = p.next {
+		pe := st.evs[p.evIdx]
+		pe.pubFrom, pe.pubTo, pe.val, pe.tomb, pe.patched = pf, pt, ev.val, ev.tomb, true
+	}
 }
 
 func (st *crState) newEv(rep int, kind string) *crEv {
@@ -463,7 +482,7 @@ func crMapKeys(s string) string {
 
 func crSetup(c *Ctx, name string, tomb bool) *crState {
 	s := StartSys(c, name, sysOpts(c)...)
-	st := &crState{c: c, s: s, tomb: tomb, keyIdx: map[string]int{}, opByMsg: map[any]*crOp{}, byMsg: map[any]*crFab{}, exByMsg: map[any]*crExch{}, getBy: map[*crdt.Get]*crGet{}}
+	st := &crState{c: c, s: s, tomb: tomb, keyIdx: map[string]int{}, opByMsg: map[any]*crOp{}, byMsg: map[any]*crFab{}, exByMsg: map[any]*crExch{}, getBy: map[*crdt.Get]*crGet{}, lastAdd: map[[2]int]string{}, lastEl: map[int]string{}, remHint: map[int]crHint{}}
 	c.state = st
 	st.n = 2 + c.W.Draw(2)
 	st.nodeIDs = make([]string, st.n)
@@ -526,13 +545,81 @@ func crSetup(c *Ctx, name string, tomb bool) *crState {
 func (st *crState) genOp(thread, rep, ki int) *crOp {
 	c := st.c
 	k := st.keys[ki]
+	op := st.genPart(thread, rep, ki, nil)
+	// compound update: 2-3 operations inside one Modify function (one delta for
+	// all of them), e.g. Decrement then Increment, Add-Remove-Add of one element
+	if c.W.Draw(4) == 3 {
+		last := op
+		for i := 0; i < 1+c.W.Draw(2); i++ {
+			last.next = st.genPart(thread, rep, ki, last)
+			last = last.next
+		}
+		c.Probe("compound-update")
+	}
+	op.ask = c.W.Draw(3) == 0
+	node := fmt.Sprintf("n%d", rep)
+	op.msg = &crdt.Update{Key: k.key, Initial: crInitial(k.typ), Modify: func(cur crdt.ReplicatedData) crdt.ReplicatedData {
+		// runs inside the real handleUpdate on the replicator's goroutine
+		for p := op; p != nil; p = p.next {
+			ev := st.newEv(rep, "update")
+			ev.op = p
+			p.applied = true
+			p.evIdx = ev.idx
+			cur = st.mutate(p, node, cur)
+		}
+		return cur
+	}}
+	st.opByMsg[op.msg] = op
+	return op
+}
+
+// genPart draws one mutation; prev is the preceding operation of the same
+// compound update (nil for the first).
+func (st *crState) genPart(thread, rep, ki int, prev *crOp) *crOp {
+	c := st.c
+	k := st.keys[ki]
 	op := &crOp{id: len(st.ops), thread: thread, rep: rep, key: ki}
 	st.ops = append(st.ops, op)
+	setElem := func(addKind, remKind string) {
+		op.kind, op.elem = []string{addKind, addKind, remKind}[c.W.Draw(3)], crElems[c.W.Draw(len(crElems))]
+		switch c.W.Draw(6) {
+		case 4, 5:
+			// remove the element another replica has just added for the second
+			// time: likely handled here before that second add arrives, so the
+			// remove has seen only the first dot
+			if h, ok := st.remHint[ki]; ok && h.rep != rep {
+				op.kind, op.elem = remKind, h.elem
+				delete(st.remHint, ki)
+				c.Probe("remove-racing-second-add")
+			}
+		case 1:
+			// the element of the preceding part / the element added last by anybody
+			if prev != nil {
+				op.elem = prev.elem
+			} else if e, ok := st.lastEl[ki]; ok {
+				op.elem = e
+			}
+		case 2, 3:
+			// the same node adds an element it added before: a second dot of that node
+			if e, ok := st.lastAdd[[2]int{rep, ki}]; ok {
+				op.kind, op.elem, op.repeat = addKind, e, true
+				st.remHint[ki] = crHint{e, rep}
+				c.Probe("repeated-add-by-same-node")
+			}
+		}
+		if op.kind == addKind {
+			st.lastAdd[[2]int{rep, ki}] = op.elem
+			st.lastEl[ki] = op.elem
+		}
+	}
 	switch k.typ {
 	case "gcounter":
 		op.kind, op.amt = "inc", uint64(1+c.W.Draw(3))
 	case "pncounter":
 		op.kind, op.amt = []string{"inc", "dec"}[c.W.Draw(2)], uint64(1+c.W.Draw(3))
+		if prev != nil && prev.kind == "dec" && c.W.Draw(2) == 1 {
+			op.kind = "inc" // Decrement then Increment inside one update
+		}
 	case "flag":
 		op.kind = "enable"
 	case "lww":
@@ -540,22 +627,14 @@ func (st *crState) genOp(thread, rep, ki int) *crOp {
 	case "mvreg":
 		op.kind, op.elem = "vset", crVals[c.W.Draw(len(crVals))]
 	case "orset":
-		op.kind, op.elem = []string{"add", "add", "rem"}[c.W.Draw(3)], crElems[c.W.Draw(len(crElems))]
+		setElem("add", "rem")
 	default:
-		op.kind, op.elem = []string{"mset", "mset", "mrem"}[c.W.Draw(3)], crElems[c.W.Draw(len(crElems))]
+		setElem("mset", "mrem")
 		op.on = c.W.Draw(2) == 0
 	}
-	op.ask = c.W.Draw(3) == 0
-	node := fmt.Sprintf("n%d", rep)
-	op.msg = &crdt.Update{Key: k.key, Initial: crInitial(k.typ), Modify: func(cur crdt.ReplicatedData) crdt.ReplicatedData {
-		// runs inside the real handleUpdate on the replicator's goroutine
-		ev := st.newEv(rep, "update")
-		ev.op = op
-		op.applied = true
-		op.evIdx = ev.idx
-		return st.mutate(op, node, cur)
-	}}
-	st.opByMsg[op.msg] = op
+	if op.repeat {
+		st.repeats = append(st.repeats, op)
+	}
 	return op
 }
 
@@ -718,7 +797,7 @@ func c39Run(c *Ctx) {
 	nthreads := 2 + c.W.Draw(2)
 	total := 3 + c.W.Draw(10) // <= 12 operations
 	c.Note("ops", total)
-	st.compact = c.W.Draw(3) == 1
+	st.compact = c.W.Draw(2) == 1
 	nexch := c.W.Draw(3)
 	issued := 0
 	var fns []func()
@@ -733,6 +812,18 @@ func c39Run(c *Ctx) {
 				}
 				op := st.genOp(t, rep, c.W.Draw(len(st.keys)))
 				st.issue(op)
+				if st.compact {
+					// compaction right after the same node added an element a second
+					// time (the replica holds two dots of one node), i.e. before a
+					// concurrent remove that saw only the first add can arrive
+					for p := op; p != nil; p = p.next {
+						if p.repeat {
+							c.Fault("prune-after-second-add")
+							_ = actor.Tell(s.Ctx, st.pids[rep], actor.VerifPruneTick())
+							break
+						}
+					}
+				}
 				switch c.W.Draw(6) {
 				case 1:
 					Sleep(time.Duration(1+c.W.Draw(3)) * time.Millisecond)
@@ -754,7 +845,11 @@ func c39Run(c *Ctx) {
 			for i := 0; i < 1+c.W.Draw(2); i++ {
 				Sleep(time.Duration(c.W.Draw(4)) * time.Millisecond)
 				c.Fault("prune-compaction")
-				_ = actor.Tell(s.Ctx, st.pids[c.W.Draw(st.n)], actor.VerifPruneTick())
+				to := c.W.Draw(st.n)
+				if n := len(st.repeats); n > 0 && c.W.Draw(2) == 1 {
+					to = st.repeats[n-1].rep
+				}
+				_ = actor.Tell(s.Ctx, st.pids[to], actor.VerifPruneTick())
 			}
 		}
 	})
@@ -1012,8 +1107,8 @@ func (st *crState) link() {
 		bySeq[i] = map[uint64]*crOp{}
 	}
 	for _, op := range st.ops {
-		if op.pubSeq > 0 {
-			bySeq[op.rep][op.pubSeq] = op
+		if op.pubSeq > 0 && bySeq[op.rep][op.pubSeq] == nil {
+			bySeq[op.rep][op.pubSeq] = op // first part of a compound update (ids ascend along the chain)
 		}
 	}
 	for _, fm := range st.fabs {
@@ -1049,6 +1144,9 @@ func (st *crState) history(ki int) string {
 				what = e.kind + "("
 				if e.fm.op != nil {
 					what += e.fm.op.String()
+					for p := e.fm.op.next; p != nil; p = p.next {
+						what += "+" + p.String()
+					}
 				} else {
 					what += e.fm.id
 				}
@@ -1126,7 +1224,13 @@ func c39Finish(c *Ctx) {
 				c.Fail("delta-before-apply", "harness", "delta of %v handled before its update event", e.fm.op)
 				return
 			}
-			model[e.rep][e.fm.op.key].applyDelta(e.fm.op, ops)
+			for p := e.fm.op; p != nil; p = p.next {
+				if p.snap == nil {
+					c.Fail("delta-before-apply", "harness", "delta of %v handled before its update event", p)
+					return
+				}
+				model[e.rep][p.key].applyDelta(p, ops)
+			}
 		case "digest":
 			if e.ex != nil {
 				for k := range st.keys {
